@@ -338,12 +338,13 @@ def check_sorted_deps(vsys, given, got):
     return True
 
 
-def ascending_eco(tab, s, recs, whole=True):
+def ascending_eco(tab, s, recs, package=None):
     """Ascending by the version comparison of the system, versions that compare equal in any
     order (the order among them is C12's clause; unparsable strings are not judged here).
     npm: the version tagged latest stands last instead, unless it is a prerelease while releases
-    exist.  whole=False: recs is a selection of the package's versions (a match), for which
-    both shapes are accepted."""
+    exist IN THE PACKAGE.  package: recs is a selection (a match) of these live versions of the package;
+    the rule for the tagged version is decided on the package, as C12 states it for the list given to the
+    matcher, not on the selection."""
     if s != NPM:
         return cc.ascending(tab, s, recs)
 
@@ -357,14 +358,17 @@ def ascending_eco(tab, s, recs, whole=True):
     tagged = lambda r: b"latest" in cc.tags_of(r).split(b",")
     pre = lambda r: tab.parses(NPM, r[0]) and tab.prerelease(NPM, r[0])
     moved_ok = bool(recs) and tagged(recs[-1]) and asc(recs[:-1])
-    if not whole:
-        return asc(recs) or moved_ok
-    some_release = any(not pre(r) for r in recs)
-    stays = [r for r in recs if tagged(r) and pre(r) and some_release]     # tagged, but not to be moved
-    moves = [r for r in recs if tagged(r) and not (pre(r) and some_release)]
-    if not moves:
+    whole = recs if package is None else package
+    some_release = any(not pre(r) for r in whole)
+    stays = [r for r in whole if tagged(r) and pre(r) and some_release]     # tagged, but not to be moved
+    moves = [r for r in whole if tagged(r) and not (pre(r) and some_release)]
+    if len(stays) + len(moves) > 1:
+        # the registry keeps one latest; the property does not say which of several tagged versions is meant
+        return asc(recs) or (moved_ok and recs[-1] in moves) if package is not None else \
+            ((moved_ok and recs[-1] in moves) or (bool(stays) and asc(recs)) if moves else asc(recs))
+    if not any(r in moves for r in recs):
         return asc(recs)
-    return (moved_ok and recs[-1] in moves) or (bool(stays) and asc(recs))
+    return moved_ok and recs[-1] in moves
 
 
 def reference(ops, tab, obs, stale_attrs=False, alias=False):
@@ -441,7 +445,7 @@ def reference(ops, tab, obs, stale_attrs=False, alias=False):
                     # not a range: the version whose string or tag equals it (which one, if several, is C12's clause)
                     if not (len(got[1]) == min(1, len(want)) and all(r in want for r in got[1])):
                         return n, "MatchingVersions (npm, not a range) does not return a live version whose string or tag equals the requirement", [b"ok", want[:1]]
-                elif sorted(map(repr, got[1])) != sorted(map(repr, want)) or not ascending_eco(tab, s, got[1], whole=False):
+                elif sorted(map(repr, got[1])) != sorted(map(repr, want)) or not ascending_eco(tab, s, got[1], package=recs):
                     return n, "MatchingVersions differs from the live versions that satisfy the requirement, ascending", [b"ok", want]
     return None
 
